@@ -276,17 +276,6 @@ func (w *Worker) unop(s *State, x *ssa.UnOp, v Value) Value {
 		return w.tc.Neg(t)
 	case token.XOR:
 		return w.tc.BvNot(w.term(v))
-	case token.ARROW:
-		ch := v.(ChanV)
-		if ch.O == nil || len(ch.O.Queue) == 0 {
-			panic(unsupported{"receive would block (no thread model)"})
-		}
-		e := ch.O.Queue[0]
-		ch.O.Queue = ch.O.Queue[1:]
-		if x.CommaOk {
-			return TupleV{e, w.tc.True}
-		}
-		return e
 	}
 	panic(unsupported{"unary " + x.Op.String()})
 }
